@@ -1125,6 +1125,39 @@ fn main() {
             }
             let _ = kind;
             run_graph(acc, &nm, None, &gr, &sr, &f, &order);
+            // the same open chain registered ONE TEMPLATE PER CALL, targets first (every call
+            // re-finalises the whole registry: bookkeeping that accumulates per finalisation shows
+            // only here - seeded change C11-9 doubled the size hint per level and per call until a
+            // render asked for terabytes), then one more unrelated add, then every template rendered
+            // and compared with the one-batch instance
+            if !cyclic {
+                let ctx = tera::Context::new();
+                let batch = add(&nm, None, &sr, &order);
+                for forward in [false, true] {
+                    let mut t = pristine(&nm);
+                    let idxs: Vec<usize> = if forward { (0..n).collect() } else { (0..n).rev().collect() };
+                    let ok = idxs.iter().all(|&i| mccore::engine::guarded(|| t.add_raw_template(&nm.names[i], sr[i])).map(|r| r.is_ok()).unwrap_or(false));
+                    if !ok {
+                        continue;
+                    }
+                    let _ = t.add_raw_template("zz-unrelated", "u");
+                    let case = || json!({"chain_kind": format!("{kind:?}"), "length": n, "registration": if forward { "one call per template, first node first" } else { "one call per template, last node first" }});
+                    for (i, name) in nm.names.iter().enumerate() {
+                        let r = mccore::engine::render(&t, name, &ctx);
+                        acc.count("renders", 1);
+                        if let (Added::Accepted(b), false) = (&batch, r.is_panic()) {
+                            let rb = mccore::engine::render(b, name, &ctx);
+                            if rb.coarse() != r.coarse() {
+                                acc.violation("chain-one-by-one-differs-from-batch", format!("template {i} renders {} after one-by-one registration, {} after one batch", r.show(), rb.show()), case);
+                            }
+                        } else if r.is_panic() {
+                            acc.violation("panic:chain-one-by-one", format!("render panicked: {}", r.show()), case);
+                        }
+                    }
+                    acc.case(n > 1, "chain:one-by-one-rendered");
+                    break;
+                }
+            }
             // a chain whose simulation is infinite and which the engine accepts is rendered here
             // as well (tiny family: no need for a separate one)
             if infinite_prediction(&nm, &gr, &f).is_some() {
